@@ -7,7 +7,8 @@
 // ParseShootName, sleep(), templater defaults) is run with passes = 1; every ammo it hands out is dumped (exported
 // fields, pointers followed, maps sorted, the variable storage through its Variables() method).
 //
-// Observation:  y=<ok:<number of ammo>|err> h=<=|diff> hl=<=|diff>     (= : the same ammo, or refused as well)
+// Observation:  y=<ok:<number of ammo>|err> h=<=|diff> hl=<=|diff> yl=<=|diff> hh=<=|diff>   (= : the same ammo, or refused as well)
+// (yl, hh: the description in another LAYOUT of the YAML / HCL file, see layout.go)
 package main
 
 import (
@@ -233,7 +234,13 @@ func (rn *runner) runPrv(f []string, i int) string {
 	default:
 		y = "ok:" + strconv.Itoa(n)
 	}
-	return fmt.Sprintf("y=%s h=%s hl=%s", y, cmp(rh, hText), cmp(rhl, hlText))
+	// the same description in another layout of each syntax (layout.go): key / block order, literal block scalars and
+	// heredocs, another end of file
+	ylText, _ := toYAMLLay(tree, r)
+	ryl, _ := provide(f[1], write(".yaml", ylText))
+	hhText := toHCLLay(tree, false, r, &hclLay{r: r})
+	rhh, _ := provide(f[1], write(".hcl", hhText))
+	return fmt.Sprintf("y=%s h=%s hl=%s yl=%s hh=%s", y, cmp(rh, hText), cmp(rhl, hlText), cmp(ryl, ylText), cmp(rhh, hhText))
 }
 
 // the description of a `prv` case: the steps of every scenario name only requests (h) / only calls (g), so that most
@@ -241,6 +248,9 @@ func (rn *runner) runPrv(f []string, i int) string {
 func genPrv(r *vh.Rand) string {
 	kind := []string{"h", "g"}[r.Intn(2)]
 	d := genDesc(r, 1+r.Intn(4))
+	if r.Bool() {
+		withBodyStrings(d, r) // bodies and payloads that end in line breaks
+	}
 	var names []string
 	key := map[string]string{"h": "requests", "g": "calls"}[kind]
 	for _, x := range listOf(d.Get(key)) {
